@@ -30,7 +30,8 @@ THEOREMS = [
     "Canopen.C19.decode_exact",
     "Canopen.C19.decode_of_drive",
     "Canopen.C19.never_illegal",
-    "Canopen.C19.reaches_target_partial",
+    "Canopen.C19.reaches_target",
+    "Canopen.C19.target_entered",
     "Canopen.C19.fault_reset_needs_edge",
     "Canopen.C19.uncommandable_refused",
     "Canopen.C19.commandable_matches_spec",
@@ -67,7 +68,8 @@ ASSUMPTIONS = [
     "reads as NOT READY TO SWITCH ON); the TPDO is periodic, the RPDO event driven",
 ]
 RULE = ("ops `sw n t` (decode statusword n over transport t), `goto start rst target transport auto12 d "
-        "extra F S schedule` (one assignment against the reference drive), `mode name mask transport delay M`; "
+        "extra F S schedule` (one assignment against the reference drive), `hist start rst transport auto12 extra F S "
+        "items` (several assignments on one node, item 8 = a fault occurs in between), `mode name mask transport delay M`; "
         "all 65536 statuswords; all 8x8 pairs x both transports x both reset-bit values x schedules with <= 2 "
         "firings among the first accesses, extra status bits seeded; all modes x all masks of the ten mode "
         "bits plus seeded 32-bit masks; non-trivial = a state other than UNKNOWN decoded / at least one "
@@ -368,6 +370,28 @@ def _run_impl(op):
         except Exception as e:
             res = "other-" + type(e).__name__
         return f"{res} st={drv.st} cw={nl(drv.cws)} trace={nl(drv.trace)} acc={drv.n}"
+    if a[0] == "hist":
+        start, rst, tr, auto12, extra, F, S = int(a[1]), int(a[2]), a[3], int(a[4]), int(a[5]), int(a[6]), int(a[7])
+        drv = Drive(start, rst, auto12, extra, [], 0)
+        node, net, clock = make_node(drv, tr, F, S)
+        drv.n = 0
+        results = []
+        for item in unnl(a[8]):
+            if item == 8:                      # a fault occurs: the drive enters its fault reaction
+                drv._enter(FRA)
+                continue
+            if tr == "p":
+                net.push_tpdo()                # the TPDO received before this assignment
+            try:
+                node.state = NAMES[item]
+                results.append("ok")
+            except ValueError as e:
+                results.append("refused" if "cannot be entered" in str(e) else "illegal")
+            except RuntimeError:
+                results.append("timeout")
+            except Exception as e:
+                results.append("other-" + type(e).__name__)
+        return f"{'/'.join(results) or '-'} st={drv.st} cw={nl(drv.cws)} trace={nl(drv.trace)} acc={drv.n}"
     if a[0] == "mode":
         mi, mask, tr, delay, M = int(a[1]), int(a[2]), a[3], int(a[4]), int(a[5])
         drv = Drive(SOD, 0, 0, 0, [], NEVER)
@@ -438,9 +462,28 @@ def oracle(op, out):
             if res != "ok":
                 return (f"drive fires automatic transitions within {d} accesses, time-outs {F}/{S} ticks, "
                         f"but the assignment of {NAMES[target]} from {NAMES[start]}"
-                        f"{' (reset bit already set)' if rst and start in (FAULT, FRA) and st == FAULT else ''} ended as {res}")
+                        f"{' with bit 7 of the last controlword set' if rst else ''} ended as {res}")
             if acc > 150 * (d + 2):
                 return f"{acc} accesses for one assignment with delay bound {d}"
+        return None
+    if a[0] == "hist":
+        res, kv = parse_out(out)
+        items = unnl(a[8])
+        targets = [i for i in items if i != 8]
+        results = [] if res == "-" else res.split("/")
+        trace, cws, st = unnl(kv["trace"]), unnl(kv["cw"]), int(kv["st"])
+        if len(results) != len(targets):
+            return f"{len(targets)} assignments, {len(results)} results"
+        for n, (t, r) in enumerate(zip(targets, results)):
+            if t in COMMANDABLE and r != "ok":
+                return (f"history {items} (8 = a fault occurs): assignment #{n + 1} of {NAMES[t]} ended as {r} "
+                        f"(drive trace {[NAMES[x] for x in trace]}, controlwords {cws})")
+            if t not in COMMANDABLE and r not in ("refused", "ok"):
+                return f"history {items}: assigning the uncommandable state {NAMES[t]} ended as {r}"
+        if (OE in trace[1:] or any(c & 0x8F == 0x0F for c in cws)) and not any(t in (OE, QSA) for t in targets):
+            return f"history {items}: operation was enabled although never asked for"
+        if items and items[-1] in COMMANDABLE and st != items[-1]:
+            return f"history {items}: all assignments returned but the drive is in {NAMES[st]}"
         return None
     if a[0] == "mode":
         name, mask = MODES[int(a[1])], int(a[2])
@@ -465,8 +508,6 @@ def oracle(op, out):
 def signature(op, what):
     a = op.split(" ")
     if a[0] == "goto":
-        if "reset bit already set" in what:
-            return "goto:fault-reset-bit-already-set:timeout"
         if "raised 'illegal'" in what:
             return "goto:illegal"
         if "operation was enabled" in what or "enable-operation command" in what:
@@ -478,6 +519,9 @@ def signature(op, what):
         return "goto:other"
     if a[0] == "sw":
         return "sw:decode"
+    if a[0] == "hist":
+        return "hist:enabled" if "operation was enabled" in what else \
+            ("hist:uncommandable" if "uncommandable" in what else "hist:no-progress")
     return f"{a[0]}:" + ("not-advertised" if "not advertised" in what else "advertised")
 
 
@@ -485,7 +529,7 @@ def nontrivial(op, out):
     a = op.split(" ")
     if a[0] == "sw":
         return out != "U"
-    if a[0] == "goto":
+    if a[0] in ("goto", "hist"):
         return " cw=-" not in out
     return " wr=-" not in out
 
@@ -496,11 +540,20 @@ def classify(op, out):
         return "sw:" + a[2] + ":" + ("unknown" if out == "U" else "state")
     if a[0] == "goto":
         return f"goto:{a[4]}:{out.split(' ')[0]}"
+    if a[0] == "hist":
+        return f"hist:{a[3]}:" + ("ok" if set(out.split(" ")[0].split("/")) <= {"ok", "refused", "-"} else "failed")
     return f"mode:{a[3]}:{out.split(' ')[0]}"
 
 
 def shrink_candidates(op):
     a = op.split(" ")
+    if a[0] == "hist":
+        items = unnl(a[8])
+        for i in range(len(items)):
+            yield " ".join(a[:8] + [nl(items[:i] + items[i + 1:])])
+        if a[5] != "0":
+            yield " ".join(a[:5] + ["0"] + a[6:])
+        return
     if a[0] == "goto":
         sched = unnl(a[10])
         for i in range(len(sched)):
@@ -563,6 +616,20 @@ def gen_ops(tier, rng):
         F = rng.choice((1, 3, 8, 2 * S, 12 * S, 500))
         yield goto(rng.randrange(8), rng.getrandbits(1), rng.randrange(8), rng.choice("sp"),
                    rng.getrandbits(1), d, rng.getrandbits(16), F, S, sched)
+    # -- histories on one node: assignments with faults occurring in between (drive performs its
+    #    automatic transitions at once, generous time-outs); every assignment must succeed
+    for tr in "sp":
+        for t1 in COMMANDABLE:
+            for t2 in COMMANDABLE:
+                yield f"hist {FAULT} 0 {tr} 0 {rng.getrandbits(16)} 500 40 {t1},8,{t2}"      # reset, new fault, again
+                yield f"hist {SOD} 0 {tr} 0 {rng.getrandbits(16)} 500 40 {t1},8,{t2},8,{t1}"
+        for _ in range(150 if quick else 3000):
+            items = [rng.choice(COMMANDABLE + (8, 8, 8)) for _ in range(rng.randrange(2, 9))]
+            yield (f"hist {rng.randrange(8)} {rng.getrandbits(1)} {tr} {rng.getrandbits(1)} "
+                   f"{rng.getrandbits(16)} 500 40 {nl(items)}")
+        for _ in range(40 if quick else 500):
+            items = [rng.choice(tuple(range(9))) for _ in range(rng.randrange(1, 7))]
+            yield f"hist {rng.randrange(8)} {rng.getrandbits(1)} {tr} 0 {rng.getrandbits(16)} 500 40 {nl(items)}"
     # -- operation modes x supported-mode masks
     tenbits = [0, 1, 2, 3, 5, 6, 7, 8, 9, 4]
     for mi in range(len(MODES)):
@@ -590,15 +657,19 @@ CORPUS = [
     "goto 0 0 1 s 0 1000000000 0 400 30 2",
     # F11, getter torn by transition 14 between the FAULT row and the FAULT REACTION ACTIVE row
     "goto 6 0 2 s 0 1000000000 0 400 30 13",
-    # fault reset with bit 7 already set (open finding)
+    # fault reset with bit 7 of the last controlword already set (before the fix: 0x80 written again,
+    # no rising edge, RuntimeError time-out) - as a start configuration and as the history producing it
     "goto 5 1 1 s 0 0 0 400 30 -",
+    "goto 5 1 4 p 0 0 0 400 30 -",
+    "hist 5 0 s 0 0 500 40 1,8,1",
 ]
 
 LEVEL_TEXT = ("Lean 4 theorems over the generated 402 tables: every statusword decodes to exactly the CiA 402 state "
               "it matches or UNKNOWN; for all 8 start states x reset bit x 5 commandable targets x both transports and "
               "ALL schedules of automatic transitions and time-out expiries (unbounded length) the setter never "
               "raises the illegal-transition error and never enables operation unless asked to (configuration graph "
-              "closed in-kernel + induction over the history); progress under a fairness bound; uncommandable "
+              "closed in-kernel + induction over the history); progress from EVERY start configuration (FAULT with any "
+              "last controlword included) within 256(d+1) steps under at most d stalls (ranking checked in-kernel); uncommandable "
               "targets refused without any controlword; operation modes refused / written with the CiA 402 code "
               "for every 0x6502 mask")
 LEVEL_NOTE = ("trusted: Lean kernel + propext/Classical.choice/Quot.sound; the CiA 402 drive specification "
